@@ -143,6 +143,9 @@ func buildArena(sc *pw.Scenario) error {
 		case "dir":
 			// the rule file cannot be read at all
 			os.Mkdir(pw.SrcRoot+"/.terraformignore", 0o755)
+		case "fifo":
+			// a named pipe where the rule file should be: opening it must not be waited for
+			syscall.Mkfifo(pw.SrcRoot+"/.terraformignore", 0o644)
 		case "longline":
 			// valid rules, then a line longer than a line scanner accepts
 			long := *sc.Rules + "\n" + strings.Repeat("x", 70000) + "\n"
